@@ -320,6 +320,20 @@ def rule_ty_sig(ctx):
             r.violate(f["path"], "unbounded-reference", "returns a reference whose lifetime is carried by no input (not the borrow "
                       "of the handle, not the guard's): safe code can keep it after the handle - and the object - is gone",
                       "%s:%d" % (f["span"]["file"], f["span"]["line"]))
+    # ... and a weak handle hands out no reference to the payload at all, under whatever name (the witnesses TY-WEAK-NO-DEREF can
+    # only try the names they know): the payload may be destructed while a Weak / WeakSnapshot exists
+    nweak = 0
+    for f in prog.items["fns"]:
+        if "Public" not in f["vis"] or not f["path"].startswith("weak::") or "::test" in f["path"]:
+            continue
+        nweak += 1
+        out = f["output"]
+        bad = _re.search(r"&'(?:\^[0-9]+\.Named\(DefId\([^)]*\)\)|[A-Za-z_{}]+(?:/#[0-9]+)?) (?:mut )?T/#", out)
+        if bad:
+            r.instance("%s: no reference to the payload through a weak handle" % f["path"], False)
+            r.violate(f["path"], "weak-deref", "a weak handle hands out a reference to the payload (%s): the object may "
+                      "already be destructed" % out[:60], "%s:%d" % (f["span"]["file"], f["span"]["line"]))
+    r.instance("no public function of weak.rs returns a reference to the payload (%d signatures)" % nweak, True)
     if nref < 6 and not r.violations:
         r.floor_failures.append("TY-SIG: found %d reference-returning accessors of the handle types, expected at least 6" % nref)
     r.require(n, 17, "snapshot-returning public functions")
